@@ -107,6 +107,7 @@ def mCanErr : Matcher → Bool
   | .legacy _ => false
   | .errRange _ _ => true
   | .errIn _ => false
+  | .errSel ranges _ => !ranges.isEmpty
   | .not sets => setsCanErr sets
 def setsCanErr : List (List Matcher) → Bool
   | [] => false
